@@ -189,6 +189,10 @@ func (fr *Frame) invoke(ins ssa.Instruction, recv *Val, it types.Type, m *types.
 		if alt, ok := recv.Alts[id]; ok {
 			payload = alt // only the values that can carry this dynamic type
 		}
+		if pt, ok := ct.Underlying().(*types.Pointer); ok {
+			// Go's type safety: a pointer held in an interface points to a whole allocated object
+			vc.assume(imp(and(fr.reach, cond), or(eq(payload, "0"), le(add(payload, intLit(int64(allocSlots(pt.Elem())))), fr.st.wm))))
+		}
 		cases = append(cases, dispatchCase{cond, func() *Val {
 			var rv *Val
 			if isPtrT(ct) {
@@ -265,6 +269,7 @@ func (fr *Frame) inline(fn *ssa.Function, args []*Val, binds []*Val, ins ssa.Ins
 		}
 	}
 	nf.entry = fr.st.clone()
+	nf.site = callSiteOrdinal(fr.fn, fn, ins)
 	nf.iterPos = fr.iterPos
 	e := &Edge{cond: fr.reach, st: fr.st}
 	nf.execRegion(nil, fn.Blocks[0], []*Edge{e}, nil, false)
@@ -289,7 +294,42 @@ func (fr *Frame) inline(fn *ssa.Function, args []*Val, binds []*Val, ins ssa.Ins
 	}
 	fr.st = fr.mergeStates(cs)
 	fr.reach = vc.define(fr.prefix+"_ret", "Bool", or(conds...))
+	if c := vc.w.contracts[shortFuncName(fn.String())]; c != nil && len(c.Marks) > 0 && vc.specDepth == 0 {
+		ord := callSiteOrdinal(fr.fn, fn, ins)
+		scope := map[string]*Val{}
+		saveSt, saveReach := nf.st, nf.reach
+		nf.st, nf.reach = fr.st, fr.reach
+		for _, m := range c.Marks {
+			if !clauseActive(m.Tags, vc.w.prop) {
+				continue
+			}
+			v := nf.evalInt(m.Expr, scope, fr.st, nf.entry)
+			fr.st.ghost[fmt.Sprintf("%s_%d", m.Name, ord)] = vc.define("g_"+sanitize(m.Name), "Int", v)
+		}
+		nf.st, nf.reach = saveSt, saveReach
+	}
 	return res
+}
+
+// callSiteOrdinal: 1-based position (source order) of the call instruction
+// among the calls of callee in caller.
+func callSiteOrdinal(caller, callee *ssa.Function, ins ssa.Instruction) int {
+	n := 1
+	if ins == nil {
+		return n
+	}
+	for _, b := range caller.Blocks {
+		for _, i2 := range b.Instrs {
+			ci, ok := i2.(ssa.CallInstruction)
+			if !ok || i2 == ins {
+				continue
+			}
+			if ci.Common().StaticCallee() == callee && i2.Pos() < ins.Pos() {
+				n++
+			}
+		}
+	}
+	return n
 }
 
 // ---- builtins ----
@@ -451,6 +491,7 @@ type assignLoc struct {
 	lo    string     // range [lo, hi) of slots
 	hi    string
 	elemT types.Type
+	cond  string // cell only: the location is assigned only if this holds ("" = always)
 }
 
 // assignLocs evaluates assigns clauses (in state old) to location sets.
@@ -511,6 +552,36 @@ func (fr *Frame) assignLocs(assigns []Clause, scope map[string]*Val, old *State)
 				locs = append(locs, assignLoc{lo: lo, hi: hi, elemT: et})
 				return
 			}
+			// *payload(x, *T): the pointee of an interface value, assigned only if x holds a *T
+			if n.Kind == "unary" && n.Op == "*" && n.Args[0].Kind == "call" && n.Args[0].Args[0].Kind == "ident" && n.Args[0].Args[0].Name == "payload" {
+				x := env.eval(n.Args[0].Args[1])
+				pt := env.typeByName(n.Args[0].Args[2])
+				id := vc.w.typeID(pt)
+				if x.Tags != nil {
+					found := false
+					for _, tg := range x.Tags {
+						if tg == id {
+							found = true
+						}
+					}
+					if !found {
+						return
+					}
+				}
+				c := eq(x.L[0], intLit(int64(id)))
+				if c == tFalse {
+					return
+				}
+				if c == tTrue {
+					c = ""
+				}
+				payload := x.L[1]
+				if alt, ok := x.Alts[id]; ok {
+					payload = alt
+				}
+				locs = append(locs, assignLoc{cell: true, addr: payload, t: elemOf(pt), cond: c})
+				return
+			}
 			addr, t := env.addrOf(n)
 			locs = append(locs, assignLoc{cell: true, addr: addr, t: t})
 		}()
@@ -557,6 +628,9 @@ func (fr *Frame) havocAssigns(assigns []Clause, scope map[string]*Val, old *Stat
 				rememberLeaf(l)
 				a := add(loc.addr, intLit(int64(l.Slot)))
 				v := vc.fresh(fr.prefix+"_hv", l.Sort)
+				if loc.cond != "" {
+					v = ite(loc.cond, v, sel(vc.arr(fr.st, l), a))
+				}
 				vc.logStore(l.Key, a, "")
 				vc.setArr(fr.st, l, store(vc.arr(fr.st, l), a, v))
 			}
